@@ -149,7 +149,10 @@ namespace avel {
 
     [[nodiscard]]
     AVEL_FINL float fdim(float x, float y) {
-        return avel::max(x - y, 0.0f);
+        if (x <= y) {
+            return 0.0f;
+        }
+        return x - y;
     }
 
     [[nodiscard]]
